@@ -468,5 +468,10 @@ _amend("C13", "text", "(R13.1-R13.9, DESIGN.md §4 C13;", "(R13.1-R13.9, DESIGN.
 _amend("C16", "text", "Decides eight structural clauses (R16.1-R16.8;", "Decides nine structural clauses (R16.1-R16.9; R16.9: no escape is decoded into a raw U+2028 / U+2029 in a string literal;")
 _amend("C19", "text", "(R19.1-R19.24, DESIGN.md §4 C19)", "(R19.1-R19.25, DESIGN.md §4 C19; R19.25: the hidden-name test of the walk spares the directory named on the command line)")
 
+_amend("C04", "text", "R04.30 = R13.1 for package css;", "R04.31: the properties of one case clause have values of one shape (reference table); R04.30 = R13.1 for package css;")
+_amend("C13", "text", "(R13.1-R13.9, DESIGN.md §4 C13;", "(R13.1-R13.10, DESIGN.md §4 C13; R13.10: no format package assigns to a field of the registry;")
+_amend("C14", "text", "DESIGN.md §4 C14", "DESIGN.md §4 C14; R14.9: the command minifier probes its writer")
+_amend("C19", "text", "(R19.1-R19.25, DESIGN.md §4 C19;", "(R19.1-R19.26, DESIGN.md §4 C19; R19.26: no loop over a map reads a map it assigns to;")
+
 if __name__ == "__main__":
     main()
